@@ -50,6 +50,85 @@ def ident(v):
     return None
 
 
+# ---- round C10: num / isnum (std::stod), num(str(d)), the numeric built-ins ------------------------------------
+NUM_ALPHA3 = [0x20, 0x2d, 0x2e, 0x30, 0x31, 0x65, 0x78, 0x70, 0x6e, 0x00]            # ' ' - . 0 1 e x p n NUL
+NUM_ALPHA2 = sorted(set(NUM_ALPHA3 + [0x2b, 0x39, 0x45, 0x50, 0x58, 0x69, 0x66, 0x61, 0x46, 0x28, 0x29, 0x09, 0x0b,
+                                      0x0d, 0xe9, 0x49, 0x4e, 0x5f, 0x2c]))
+NUMSTR_FINDING = {
+    "property": "C10", "id": "C10.num.subnormal.erange", "status": "known",
+    "site": "blocc/builtin/builtin_num.cpp:48-59 (catch std::out_of_range -> EXC_RT_OUT_OF_RANGE), builtin_isnum.cpp:44-54",
+    "witness": "num(str(x)) with x = 5e-324 stored exactly (any subnormal), x = 2.2250738585072014e-308 (smallest normal) or "
+               "x = 1.7976931348623157e308 (largest double); also num(\"1e-310\"), isnum(\"1e-310\") = false",
+    "what": "num(str(d)) raises OUT_OF_RANGE (and isnum(str(d)) is false) for every subnormal d, the smallest normal and the largest "
+            "double: std::stod throws std::out_of_range whenever glibc strtod sets ERANGE, which it also does for a representable "
+            "but tiny and inexact result (and %.16g of DBL_MAX rounds above DBL_MAX)",
+    "why_recorded": "the property demands num(str(d)) = d up to the printed precision for all double values; the call fails instead "
+                    "of returning the nearest double (Proofs/C10.lean num_str_subnormal_fails)"}
+MATH1 = ["floor", "ceil", "sqrt", "exp", "log", "log10", "sin", "cos", "tan", "asin", "acos", "atan", "sinh", "cosh", "tanh"]
+
+
+def _bits_to_float(b):
+    import struct
+    return struct.unpack("<d", struct.pack("<Q", b))[0]
+
+
+def _float_to_bits(x):
+    import struct
+    return struct.unpack("<Q", struct.pack("<d", x))[0]
+
+
+def decimal_boundary_strings(rng, count):
+    """decimal texts at rounding boundaries: the exact midpoint between two adjacent doubles (a tie, to be rounded to
+    even), and the midpoint with its last digit moved by one (just below / just above), in plain and exponent form"""
+    from decimal import Decimal, getcontext
+    getcontext().prec = 1200
+    out = []
+    specials = [0x0000000000000001, 0x0000000000000002, 0x000ffffffffffffe, 0x000fffffffffffff, 0x0010000000000000,
+                0x0010000000000001, 0x7feffffffffffffe, 0x7fefffffffffffff, 0x3ff0000000000000, 0x433fffffffffffff,
+                0x4340000000000000, 0x3fb999999999999a]
+    bits = specials + [rng.getrandbits(63) % 0x7ff0000000000000 for _ in range(count)]
+    for b in bits:
+        lo = Decimal(_bits_to_float(b))
+        hi = Decimal(_bits_to_float(b + 1)) if b + 1 < 0x7ff0000000000000 else Decimal(2) ** 1024
+        mid = (lo + hi) / 2
+        t = format(mid, "f") if abs(mid.adjusted()) < 25 else format(mid, "e").replace("e+", "e")
+        out.append(t)
+        # neighbours of the tie: bump the last significant digit of the mantissa
+        m, _, e = t.partition("e")
+        if m[-1] not in "09.":
+            for d in (-1, 1):
+                out.append(m[:-1] + chr(ord(m[-1]) + d) + (("e" + e) if e else ""))
+        out.append(m + "0000000000000000000000001" + (("e" + e) if e else ""))
+    return out
+
+
+def grammar_number(rng):
+    """one string of the std::stod grammar (and near misses)"""
+    ws = rng.choice(["", "", "", " ", "  ", "\t", "\n ", "\v\f\r"])
+    sign = rng.choice(["", "", "", "-", "+", "--", "+-"])
+    kind = rng.random()
+    if kind < 0.08:
+        body = rng.choice(["inf", "INF", "Infinity", "infinit", "iNf", "in", "nan", "NaN", "nan(", "nan()", "nan(12)", "nan(zz_9)x", "na"])
+    elif kind < 0.33:
+        ip = "".join(rng.choice("0123456789abcdefABCDEF") for _ in range(rng.choice([0, 1, 1, 2, 5, 14, 17])))
+        fp = rng.choice(["", "", "."]) and "." + "".join(rng.choice("0123456789abcdef") for _ in range(rng.choice([0, 1, 3, 13, 16])))
+        ex = rng.choice(["", "", "p", "p+", "p-", "P"])
+        if ex:
+            ex += rng.choice(["", str(rng.randint(0, 9)), str(rng.randint(0, 1100)), str(rng.choice([1021, 1022, 1023, 1024, 1074, 1075, 1076, 1126])),
+                              "99999999999999999999"])
+        body = rng.choice(["0x", "0X", "0x", "x", "0"]) + ip + fp + ex
+    else:
+        ip = "".join(rng.choice("0123456789") for _ in range(rng.choice([0, 1, 1, 2, 3, 8, 17, 21, 40])))
+        fp = rng.choice(["", ".", "."]) and "." + "".join(rng.choice("0123456789") for _ in range(rng.choice([0, 1, 2, 6, 17, 30])))
+        ex = rng.choice(["", "", "e", "E", "e+", "e-", "E-"])
+        if ex:
+            ex += rng.choice(["", str(rng.randint(0, 30)), str(rng.randint(280, 345)), str(rng.choice([307, 308, 309, 323, 324, 325])), "0000000000000000000012",
+                              "99999999999999999999"])
+        body = ip + fp + ex
+    tail = rng.choice(["", "", "", " ", "x", "e", ".", "\0" + "9", ",5", "f"])
+    return (ws + sign + body + tail).encode().decode("unicode_escape").encode("latin-1")
+
+
 class C10(Check):
     pid = "C10"
     proof_modules = ["BlocV.Proofs.C10"]
@@ -60,9 +139,17 @@ class C10(Check):
             "the error code and the argument variables after the call are compared with the Lean model; substr/subraw at "
             "INT64_MIN and hex with pad counts up to INT64_MAX (the regions of the repaired overflow findings) are part of the "
             "lattice for every string; abs over an integer/decimal lattice and pow over integer pairs (exact modulo 2^64, "
-            "negative exponents, zero base) and mixed/decimal pairs are compared likewise; isnum/num "
-            "consistency is checked on the implementation alone (strtod is not modelled). distinct = (built-in, arguments).")
-    assumptions = ["strtod (num/isnum of strings) is trusted libc; only isnum(s) <=> num(s) succeeds is checked, on the implementation",
+            "negative exponents, zero base) and mixed/decimal pairs are compared likewise. Round C10: num / isnum of strings "
+            "and bytes against the exact model of std::stod (every string up to length 3 over {' ','-','.','0','1','e','x','p','n',NUL}, "
+            "up to length 2 over 29 characters, grammar-generated decimal / hexadecimal / inf / nan texts with near misses, garbage "
+            "tails and extreme exponents, exact midpoints between adjacent doubles and their neighbours) — value compared bit for "
+            "bit, error code compared; num(str(d)) over the double lattice, random bit patterns and doubles with 1..17-digit texts; "
+            "bool / isnull / typeof / sign / round / the fifteen libm functions / max / min / mod / atan2 / clamp / pi ee phi over "
+            "integer and double lattices with typed and untyped nulls. distinct = (built-in, arguments).")
+    assumptions = ["glibc strtod is correctly rounded (nearest, ties to even) with ERANGE on overflow and on results that are tiny after "
+                   "rounding and inexact: that is what Model/Strtod.lean states; compared bit-exactly on the generated texts",
+                   "libm functions (floor ceil sqrt exp log log10 sin cos tan asin acos atan sinh cosh tanh atan2 pow fmod) are the platform's "
+                   "on both sides (Lean Float.* compiles to the same C functions): compared bit-exactly, not proved",
                    "toupper/tolower are modelled in the C locale (ASCII letters only)",
                    "std::pow / std::abs on doubles (pow with a decimal operand, abs of a decimal) are the platform's libm on both sides "
                    "(Lean Float.pow / Float.abs): compared bit-exactly, not proved"]
@@ -227,31 +314,148 @@ class C10(Check):
         for b in ("B:1", "B:0", "N:b0"):
             add("str", b)
             add("int", b)
-        # isnum / num consistency, on the implementation alone
-        numstrs = ["12", "1.5e3", "  -7.25", "12abc", "abc", "", "   ", "1e308", "1e999", "-1e400", "1e-999", "0x1p3", "0x1p99999", "inf",
-                   "nan", "-inf", "+.5", ".", "e5", "1e", "1e+", "0x", " 1", "1 ", "--1", "1e-400", "4.9e-324", "2e-324", "1.7976931348623159e308"]
-        for s in numstrs:
-            for mk in (S, R):
-                n += 1
-                v = mk(list(s.encode()))
-                cases.append(Case("c%d" % n, "", "|".join(["new 0", "set 0 %s %s" % (hx("X"), v), "prog 0 " + hx("a = isnum(x);"),
-                                                     "prog 0 " + hx("b = num(x);"), "dump 0"]), {"isnum": s}))
+        # ---- round C10 -------------------------------------------------------------------------------------------
+        fam = {}
+
+        def count(family, k=1):
+            fam[family] = fam.get(family, 0) + k
+
+        # num / isnum of strings and bytes against the model of std::stod (Model/Strtod.lean), bit-exact doubles:
+        # (a) every string up to length 3 over {' ', '-', '.', '0', '1', 'e', 'x', 'p', 'n', NUL}, every string up to
+        #     length 2 over a 29-character alphabet (signs, digits, exponent/hex markers, inf/nan letters, white space,
+        #     a high byte); (b) grammar-generated numbers (decimal / hexadecimal / inf / nan, near misses, garbage tails,
+        #     extreme exponents); (c) rounding boundaries: exact midpoints between adjacent doubles (ties), their
+        #     neighbours, the subnormal / overflow thresholds
+        numstrs = []
+        for ln in range(4):
+            for t in itertools.product(NUM_ALPHA3, repeat=ln):
+                numstrs.append(bytes(t))
+        count("num.exhaustive3", len(numstrs))
+        k0 = len(numstrs)
+        for ln in (1, 2):
+            for t in itertools.product(NUM_ALPHA2, repeat=ln):
+                if not set(t) <= set(NUM_ALPHA3):
+                    numstrs.append(bytes(t))
+        count("num.exhaustive2", len(numstrs) - k0)
+        fixed = ["12", "1.5e3", "  -7.25", "12abc", "abc", "", "   ", "1e308", "1e999", "-1e400", "1e-999", "0x1p3", "0x1p99999", "inf",
+                 "nan", "-inf", "+.5", ".", "e5", "1e", "1e+", "0x", " 1", "1 ", "--1", "1e-400", "4.9e-324", "2e-324", "1.7976931348623159e308",
+                 "0x0.fffffffffffff8p-1022", "0x0.fffffffffffffcp-1022", "0x0.fffffffffffffbp-1022", "0x1p-1074", "0x1p-1075", "0x1.8p-1074",
+                 "0x1.fffffffffffff8p1023", "0x1.fffffffffffff7p1023", "0x1p1024", "0x.", "0x.8", "0xp3", "0x1p", "0x1.p1", "0X1P1",
+                 "0x0p99999999999999999999", "0e99999999999999999999", "1e-99999999999999999999", "INFINITY", "infinit", "NaN(123)",
+                 "nan(", "-nan", "1.", ".5", "+.5e+2", "1 e5", "- 1", "1.5p3", "0x-1", "1_000", "1,5", "2.2250738585072011e-308",
+                 "2.2250738585072014e-308", "2.225073858507201383e-308", "1.7976931348623157e308", "1.7976931348623158e308",
+                 "2.4703282292062327e-324", "2.4703282292062328e-324", "9007199254740993", "9007199254740992.5", "0.1", "1e23", "8.5e22",
+                 "1e-310", "123456789012345678", "0.30000000000000004"]
+        numstrs += [x.encode() for x in fixed]
+        count("num.fixed", len(fixed))
+        g = [grammar_number(self.rng) for _ in range(700 if quick else 12000)]
+        numstrs += g
+        count("num.grammar", len(g))
+        bnd = [x.encode() for x in decimal_boundary_strings(self.rng, 40 if quick else 1500)]
+        numstrs += bnd
+        count("num.boundary", len(bnd))
+        for i, bs in enumerate(numstrs):
+            add("num", S(list(bs)))
+            add("isnum", S(list(bs)))
+            if i % 7 == 0:
+                add("num", R(list(bs)))
+                add("isnum", R(list(bs)))
+        # num / isnum / bool / isnull / typeof of the other types
+        others = ["N:s0", "N:r0", "N:i0", "N:d0", "N:b0", "N:?0", "B:1", "B:0", "I:0", "I:-1", "I:%d" % I64MIN, "I:%d" % I64MAX,
+                  "I:9007199254740993", "I:-9007199254740993", "D:0000000000000000", "D:8000000000000000", "D:7ff8000000000000",
+                  "D:7ff0000000000000", "D:3fb999999999999a", "D:0000000000000001", S([]), S(list(b"1")), R(list(b"1")), R([])]
+        for v in others:
+            for f in ("num", "isnum", "bool", "isnull", "typeof"):
+                if f == "bool" and v[:2] in ("S:", "R:") or f == "bool" and v in ("N:s0", "N:r0"):
+                    continue    # BOOLExpression::parse refuses string / bytes operands (hand-written signature, not in Gen.builtinSigs)
+                add(f, v)
+                count("conv.types")
+        # num(str(d)): the text of a double read back (model: fmt16g then stod; implementation: one expression)
+        from .c03 import double_lattice as _dl
+        rt = list(_dl()) + [0x0000000000000001, 0x000fffffffffffff, 0x0010000000000000, 0x8000000000000001]
+        for _ in range(250 if quick else 6000):
+            rt.append(self.rng.getrandbits(64))
+        for _ in range(250 if quick else 6000):
+            # doubles with a short decimal text: k significant digits, moderate exponent
+            k = self.rng.randint(1, 17)
+            txt = "%de%d" % (self.rng.randint(10 ** (k - 1), 10 ** k - 1), self.rng.randint(-30, 30) - k)
+            rt.append(_float_to_bits(float(txt)))
+        for b in rt:
+            n += 1
+            v = "D:%016x" % b
+            src = PRELUDE + "r = num(str(x));\nq = num(str(idd(x)));\n"
+            cases.append(Case("c%d" % n, "numstr " + v, "|".join(["new 0", "set 0 %s %s" % (hx("X"), v), "prog 0 " + hx(src), "dump 0"]),
+                              {"vals": [v], "call": "num(str(x))", "numstr": b}))
+        count("numstr", len(rt))
+        # numeric built-ins over an operand lattice
+        ilat = [I64MIN, I64MIN + 1, -(2 ** 53) - 1, -1000, -3, -2, -1, 0, 1, 2, 3, 7, 10, 100, 2 ** 31, 2 ** 53, 2 ** 53 + 1, 2 ** 62, I64MAX - 1, I64MAX]
+        dlat = sorted(set(_dl() + [0x3fe0000000000001, 0x3fdfffffffffffff, 0xbfe0000000000000, 0x4004000000000000, 0xc004000000000000,
+                                   0x400921fb54442d18, 0x3ff921fb54442d18, 0x4005bf0a8b145769, 0x40862e42fefa39ef, 0x40862e42fefa39f0,
+                                   0xc0874910d52d3051, 0x4197d78400000000, 0x3e7ad7f29abcaf48, 0x8000000000000001, 0xfff8000000000000]))
+        ivals = ["I:%d" % i for i in ilat]
+        dvals = ["D:%016x" % b for b in dlat] + ["D:%016x" % self.rng.getrandbits(64) for _ in range(20 if quick else 400)]
+        nullv = ["N:i0", "N:d0", "N:?0"]
+        for f in MATH1 + ["sign", "round", "bool", "isnull", "typeof", "isnum", "num"]:
+            for v in ivals + dvals + nullv:
+                add(f, v)
+                count("math1")
+        for v in dvals + ivals[:8]:
+            for k in ("I:0", "I:1", "I:2", "I:-1", "I:15", "I:308", "I:309", "I:-324", "N:i0", "N:?0", "D:4004000000000000", "D:46293e5939a08cea"):
+                add("round", v, k)
+                count("round2")
+        pairs = ivals[::2] + dvals[::3] + nullv
+        small = ["I:0", "I:-1", "I:3", "I:%d" % I64MIN, "D:0000000000000000", "D:8000000000000000", "D:4004000000000000", "D:c008000000000000",
+                 "D:7ff8000000000000", "D:7ff0000000000000", "N:i0", "N:d0", "N:?0"]
+        for f in ("max", "min", "mod", "atan2"):
+            for a in pairs:
+                for b in small:
+                    add(f, a, b)
+                    add(f, b, a)
+                    count("math2", 2)
+        cl = ["I:-5", "I:0", "I:7", "I:%d" % I64MIN, "I:%d" % I64MAX, "N:i0", "N:?0"]
+        cd = ["D:c014000000000000", "D:0000000000000000", "D:8000000000000000", "D:401c000000000000", "D:7ff8000000000000", "D:fff0000000000000", "N:d0", "N:?0"]
+        for lat in (cl, cd):
+            for a in lat:
+                for b in lat:
+                    for c_ in lat:
+                        add("clamp", a, b, c_)
+                        count("clamp")
+        for a, b, c_ in (("I:1", "D:0000000000000000", "I:2"), ("D:3ff0000000000000", "I:0", "I:2"), ("I:1", "I:0", "D:4000000000000000")):
+            add("clamp", a, b, c_)
+        # int(decimal): the asymmetric range test [-2^63, 2^63) (seeded mutation C03-m2), truncation toward zero
+        for b in dlat + [0xc3e0000000000000, 0xc3e0000000000001, 0xc3dfffffffffffff, 0x43e0000000000000, 0x43dfffffffffffff,
+                         0xbfefffffffffffff, 0x3fefffffffffffff, 0xc000000000000001] + [self.rng.getrandbits(64) for _ in range(40 if quick else 2000)]:
+            add("int", "D:%016x" % b)
+            count("int.decimal")
+        for cst in ("pi", "ee", "phi"):
+            n += 1
+            cases.append(Case("c%d" % n, "bi " + cst, "|".join(["new 0", "prog 0 " + hx("r = %s;\nq = %s;\n" % (cst, cst)), "dump 0"]),
+                              {"vals": [], "call": cst}))
+            count("const")
+        self.stats["families_C10"] = fam
+        self.stats["numstr"] = {"same": 0, "diff": 0, "error": 0, "diff_by_digits": {}, "same_by_digits": {}}
         self.stats["cases"] = n
         return cases
 
     def judge(self, c, iraw, m, stderr):
-        if "isnum" in c.meta:
-            self.evaluations += 0
-            parts = iraw.split("|")
-            d = parse_dump(parts[-1]) if parts[-1].startswith("dump=") else None
-            self.distinct.add(("isnum", c.meta["isnum"]))
-            if d is None or "A" not in d["syms"] or len(parts) < 5:
-                return self.record_violation("isnum/num consistency program failed", c, iraw[:200], m, stderr)
-            a = d["syms"]["A"][2].replace("/l", "")
-            numok = parts[-2] == "ok-"
-            if (a == "B:1") != numok:
-                return self.record_violation("isnum(%r) = %s but num() %s (%s)" % (c.meta["isnum"], a, "succeeds" if numok else "fails", parts[-2]), c, a, m)
-            return
+        if "numstr" in c.meta and m.get("note"):
+            kind, _, txt = m["note"].partition(":")
+            st = self.stats["numstr"]
+            digits = len([ch for ch in bytes.fromhex(txt).split(b"e")[0] if 0x30 <= ch <= 0x39])
+            lead = len(bytes.fromhex(txt).split(b"e")[0].lstrip(b"-0.")) if txt else 0
+            sig = len([ch for ch in bytes.fromhex(txt).split(b"e")[0].lstrip(b"-0.") if 0x30 <= ch <= 0x39])
+            if not (m.get("model") or "").startswith("ok "):
+                st["error"] += 1
+                # finding C10.num.subnormal.erange (status known): str() of a finite double gives a text that num() refuses.
+                # Nothing is suppressed: the error code is still compared with the model below.
+                pp = iraw.split("|")
+                if len(pp) >= 2 and pp[-2].startswith("rerr") and pp[-2].split()[1:2] == (m.get("model") or "").split()[1:2]:
+                    self.known_hits.setdefault(NUMSTR_FINDING["id"], {"what": NUMSTR_FINDING["what"], "example": "num(str(x)), x = %s" % c.meta["vals"][0],
+                                                                      "impl": pp[-2]})
+            else:
+                st[kind] += 1
+                key = kind + "_by_digits"
+                st[key][str(sig)] = st[key].get(str(sig), 0) + 1
         mout = m.get("model")
         if iraw.startswith("crash") or iraw.endswith("diverges"):
             prog, dump = iraw, ""
@@ -283,5 +487,7 @@ class C10(Check):
                 return self.record_violation("%s (%s) gives %s, the model gives %s" % (c.meta["call"], "variables" if r == "R" else "temporaries", got, want), c, got, m)
         for name, v in zip(("X", "Y", "Z"), c.meta["vals"]):
             got = d["syms"].get(name, ("", "", "?"))[2].replace("/l", "").replace("/t", "")
+            if v.startswith("D:") and (int(v[2:], 16) & 0x7fffffffffffffff) > 0x7ff0000000000000:
+                v = "D:7ff8000000000000"    # the probe prints every NaN as the canonical one (payloads / sign are not compared)
             if got != v:
                 return self.record_violation("argument variable %s changed by %s: %s" % (name, c.meta["call"], got), c, got, m)
